@@ -36,25 +36,30 @@ def rc(s):
     return s[::-1].translate(str.maketrans("ACGT", "TGCA"))
 
 
-def walker(exons, strand_name, frames):
-    """reference reading-frame model: list of codons, each a list of 3 chromosome positions (5'->3')"""
+def walker(exons, strand_name, frames, carry_offsets=True):
+    """reference reading-frame model: list of codons, each a list of 3 chromosome positions (5'->3').
+    carry_offsets=False: an offset longer than its exon ends with that exon (what the library does, pinned by
+    tests/minimal/gene/test_cds.py::test_optimize_blocks[cds0]) instead of continuing in the next exon"""
     order = list(range(len(exons)))
     if strand_name == "MINUS":
         order.reverse()
     kept = []
     running = 0
+    carry = 0  # bases of an offset that a shorter exon left to be skipped in the next one
     for i in order:
         pos = enum_positions([exons[i]], strand_name)
         f = frames[i]
-        if f != running:
+        # while an offset is still being skipped, the codon position of the exon's first base is 3 - (bases left to skip)
+        expected = (3 - carry) % 3 if carry else running
+        if f != expected:
             r = len(kept) % 3
             if r:
                 kept = kept[:len(kept) - r]
-            pos = pos[f:]
-            running = 0
-        if not pos:
-            continue
-        kept += pos
+            skip = f
+        else:
+            skip = carry
+        carry = max(0, skip - len(pos)) if carry_offsets else 0
+        kept += pos[skip:]
         running = len(kept) % 3
     n = len(kept) // 3
     return [kept[3 * i:3 * i + 3] for i in range(n)]
@@ -101,10 +106,21 @@ def _case(repo, it, S, spec):
     except Raised as ex:
         return 1, [("construct", f"{desc}: construction raises {ex.exc_name}", f"{CDS}.__init__")]
     want = walker(list(exons), sn, list(frames))
-    want_seq = "".join(bases(c, sn) for c in want)
 
     def q(m):
         return repo.fn(f"{CDS}.{m}")
+
+    pinned = walker(list(exons), sn, list(frames), carry_offsets=False)
+    if pinned != want:
+        # an offset of 2 annotated on a 1-base exon: by the statement the rest of the offset is skipped in the next exon.
+        # The library ends the offset with the exon (known finding); everything derived is then compared with that reading,
+        # so that the other answers are still checked for consistency.
+        k, v = run(it, q("chromosome_codon_locations"), [], {}, mk_cds(it, exons, S[sn], frames, par))
+        if k == "ok" and [loc_positions(c) for c in v] == pinned:
+            out.append(("codons [offset longer than its exon]", f"{desc}: codons {pinned}; skipping the whole annotated offset "
+                        f"(continuing in the next exon) gives {want}", f"{CDS}._prepare_multi_exon_window_for_scan_codon_locations"))
+            want = pinned
+    want_seq = "".join(bases(c, sn) for c in want)
 
     def seq_value(v):
         if isinstance(v, Obj) and v.cls_name == "Sequence":
@@ -228,8 +244,7 @@ def _frames_case(repo, it, S, spec):
         # and under those frames the walker never re-synchronises: codons = skip offset, then consecutive triples
         pos = [p for i in order for p in enum_positions([exons[i]], sn)][start:]
         simple = [pos[3 * i:3 * i + 3] for i in range(len(pos) // 3)]
-        if walker(list(exons), sn, wl) != simple and sum(e - s for s, e in exons) - start >= 3 and all(
-                (e - s) > 2 for s, e in exons):
+        if walker(list(exons), sn, wl) != simple and sum(e - s for s, e in exons) - start >= 3:
             out.append(("construct_frames", f"{desc}: frames {wl} make the reading-frame model re-synchronise", f.qual))
     return 1, out
 
